@@ -332,6 +332,14 @@ def documents(draw, P):
     if P['global_comments']:
         for _ in range(draw(st.sampled_from([0, 0, 0, 1]))):
             rows.append({'g': draw(G.global_comments(sep_chars=P['sep_chars']))})
+    # the same word under two spine types (the syllable 'I' and the roman numeral 'I', 'f' as lyric and as dynamic mark):
+    # a later cell takes the text of an earlier cell of another category
+    texts = [c for r in rows if 'c' in r for c in r['c'] if c['k'] == 'text']
+    if len({c['cat'] for c in texts}) >= 2 and draw(st.integers(0, 2)) == 0:
+        first = texts[0]
+        other = next((c for c in texts[1:] if c['cat'] != first['cat']), None)
+        if other is not None:
+            other['t'] = other['e'] = first['t']
     return {'types': types, 'rows': rows, 'profile': P['name']}
 
 
